@@ -11,3 +11,6 @@ import RainModel.Model.STree
 import RainModel.Model.Blocklist
 import RainModel.Model.AddrList
 import RainModel.Model.Admission
+import RainModel.Model.Tier
+import RainModel.Model.TrackerWire
+import RainModel.Model.Announcer
